@@ -27,7 +27,7 @@ RULE += ('; also: replies dropped by the transport, broadcasts delivered by keyw
 ASSUMPTIONS = ['the RabbitMQ transport itself is replaced by an in-process communicator that follows its observable protocol (pv/comm.py)',
                'an exception raised by a handler may reach the sender wrapped in RemoteException']
 REQUIRED = ['handlers_ran', 'twin_compared', 'replies_compared', 'announcements_checked', 'intent/pause', 'intent/play', 'intent/kill', 'intent/status',
-            'via/rpc', 'via/bcast', 'wrap/raw', 'wrap/loop', 'broadcast_faults', 'after_termination_checks', 'in_step_deliveries', 'idle_deliveries', 'idle_thread_runs', 'dropped_replies', 'recreated_terminal_checks', 'unsubscribe_faults', 'own_subscription_handles', 'own_state_transitions']
+            'via/rpc', 'via/bcast', 'wrap/raw', 'wrap/loop', 'broadcast_faults', 'after_termination_checks', 'in_step_deliveries', 'idle_deliveries', 'idle_thread_runs', 'dropped_replies', 'recreated_terminal_checks', 'unsubscribe_faults', 'own_subscription_handles', 'own_state_transitions', 'subscription_faults']
 BOUNDS = {'quick': '6 programs, K<=2 messages (K=2 sampled 1/3), all broadcast fault points', 'thorough': '14 programs + thread-mode delivery (400 runs)'}
 MSGS = [['rpc', 'pause', 'rp'], ['rpc', 'play', None], ['rpc', 'kill', 'rk'], ['rpc', 'status', None], ['bcast', 'pause', 'bp'], ['bcast', 'play', None],
         ['bcast', 'kill', 'bk'],
@@ -60,6 +60,10 @@ class CommRun(lifecycle.Run):
             self.base.fail_remove_rpc = TOLERATED[self.case['unsub_fault']]()
         self.announced = []
         self.base.add_broadcast_subscriber(lambda c, body, sender, subject, correlation_id: self.announced.append([sender, subject]))
+        if self.case.get('sub_fault'):
+            # the process's request for its broadcast subscription times out (tolerated, logged): it lives without that subscription, and
+            # what it did subscribe to is given up at the end all the same
+            self.base.fail_add_broadcast = kiwipy.TimeoutError('no answer to the subscription request')
         communicator = communications.LoopCommunicator(self.base, loop) if self.case.get('wrap') else self.base
         self.ctl = pc.RemoteProcessThreadController(self.base)
         self.handler_calls = []
@@ -244,6 +248,8 @@ def gen_cases(tier, seed):
             # all the same, the terminated process is not reachable
             for kind in sorted(TOLERATED):
                 yield {'kind': 'bfault', 'name': name, 'program': prog, 'plan': [], 'wrap': wrap, 'bfail': {}, 'unsub_fault': kind, 'drain': True, 'listener': False}
+            # the request for the broadcast subscription times out when the process is set up
+            yield {'kind': 'bfault', 'name': name, 'program': prog, 'plan': [], 'wrap': wrap, 'bfail': {}, 'sub_fault': 'timeout', 'drain': True, 'listener': False}
     # a message sent from a communicator thread while the loop is idle (blocked waiting for events) must still be handled
     P = programs.basic_programs()
     for wrap in (False, True):
@@ -488,7 +494,7 @@ def run_case(case):
         a = CommRun(dict(case)).execute().record()
     except BaseException as exc:  # noqa: BLE001
         if case['kind'] == 'bfault':
-            kind = (list(case['bfail'].values()) or [case.get('unsub_fault')])[0]
+            kind = (list(case['bfail'].values()) or [case.get('unsub_fault') or case.get('sub_fault')])[0]
             idx = (list(case['bfail']) or ['unsubscribe'])[0]
             viol.append(V('broadcast-fault-escaped', 'broadcast-fault-escaped:%s:%s' % (kind, 'first' if idx == '1' else 'later'),
                           'a tolerated broadcast failure (%s at announcement %s) disturbed the process: %r' % (kind, idx, exc)))
@@ -527,7 +533,8 @@ def run_case(case):
     if case['kind'] == 'bfault':
         obs['broadcast_faults'] = int(bool(case['bfail']))
         obs['unsubscribe_faults'] = int(bool(case.get('unsub_fault')))
-        obs['tolerated_kinds'][(list(case['bfail'].values()) or [case.get('unsub_fault')])[0]] = 1
+        obs['tolerated_kinds'][(list(case['bfail'].values()) or [case.get('unsub_fault') or case.get('sub_fault')])[0]] = 1
+        obs['subscription_faults'] = int(bool(case.get('sub_fault')))
         ref = plans.reference(case['program'])
         sa, sb = _summary(a), _summary(ref)
         if sa != sb:
